@@ -45,6 +45,7 @@ fn main() {
         "C11" => (ex, Box::new(|r| checks::c11::run(r))),
         "C12" => (ex, Box::new(|r| checks::amf0::run_c12(r))),
         "C13" => (ex, Box::new(|r| checks::c13::run(r))),
+        "C15" => (mc, Box::new(|r| checks::c15::run(r))),
         "C16" => (mc, Box::new(|r| checks::c16::run(r))),
         "C17" => (mc, Box::new(|r| checks::c17::run(r))),
         "C18" => (mc, Box::new(|r| checks::c18::run(r))),
